@@ -16,10 +16,18 @@ MANIFEST = dict(
          "observes exactly what it observes running alone and that no two enabled actions conflict; instantiated for "
          "libtins over a table of every variable with static storage duration that is regenerated from the source on "
          "every run (clang-14 AST: const-ness, write sites; cross-checked against the data symbols of the compiled "
-         "library) and decided as a whole (`no_shared_mutable`, `extern_calls_mt_safe`, `scan_complete`). Tied to the "
-         "code by a ThreadSanitizer build running 2/4/8/16 threads over parse/build/copy/address/reassembly/stream-"
-         "following/WEP/WPA2 workloads on thread-private objects with randomised yields; per-thread digests are compared "
-         "with the same calls run alone (three-way: implementation, model, spec oracle).",
+         "library) and decided as a whole (`no_shared_mutable`, `extern_calls_mt_safe`, `scan_complete`); registering "
+         "allocators before the threads start only changes the initial configuration (`registration_before_threads`); "
+         "a lazily built table races only in a cold process and is invisible to any dynamic detector once one call has "
+         "completed (`lazy_init_cold_race`, `lazy_init_warm_hides_race`). Tied to the code by a ThreadSanitizer build: every "
+         "concurrent run happens in a fresh forked process whose threads (k = 2/4/8/16, released by one barrier) make the "
+         "first libtins calls of that process; 22 workload kinds on thread-private objects (parse/build/copy/address/"
+         "reassembly/stream-following/WEP/WPA2 + CRC-32/FCS, TKIP, CCMP with different keys, pseudo-header checksums on "
+         "three flows per thread, address text I/O, DNS compose/decode, typed options, RadioTap field table, Dot11 dispatch, "
+         "pdu_from_flag for every tag, serialisation of every PDU class, AckTracker); registry scenarios register 0-3 user "
+         "allocators per family (ether type, IP protocol) in increasing/decreasing/mixed order before the threads start, no "
+         "parse on the registering thread; per-thread digests are compared with the same calls run alone in another "
+         "process (three-way: implementation, model, spec oracle).",
     note="Partial by nature: the theorem is about the abstract machine; that the C++ respects the footprints of the "
          "table is established by a syntactic scan (writes through aliases, inline asm or other languages are not seen) "
          "and by the TSan schedules actually run, not by a proof over the C++ memory model. Trusted: Lean kernel + "
@@ -96,7 +104,7 @@ def gen_cold(rng, cid, k, kinds, regs=()):
     """One cold start: a fresh process in which nothing of libtins has run; `regs` are registered on its main thread,
     then k threads are released by a barrier at the same instant and each one's FIRST library call is the sensitive
     one of its workload.  One repetition: a second one in the same process would be warm."""
-    ops = [f"case {cid}"] + [f"reg {fam} {ident}" for fam, ident in regs]
+    ops = [" ".join([f"case {cid}"] + [f"{fam}:{ident}" for fam, ident in regs])]
     for t in range(k):
         kind = kinds[t % len(kinds)] if len(kinds) > 1 else kinds[0]
         ops.append(w_line(rng, t, kind, cold_iters(rng, kind)))
@@ -129,7 +137,8 @@ def gen_registry(rng, cid, k, eth_sc, ip_sc):
     kinds = ["user"] * max(2, k - k // 4) + [rng.choice(["flag", "parse", "copy"]) for _ in range(k // 4)]
     kinds = kinds[:k]
     rng.shuffle(kinds)
-    ops = [f"case {cid}"] + [f"reg {fam} {ident}" for fam, ident in regs]
+    # the registrations travel on the case line: the minimiser never drops it, so `alone=` digests stay valid
+    ops = [" ".join([f"case {cid}"] + [f"{fam}:{ident}" for fam, ident in regs])]
     for t, kind in enumerate(kinds):
         ops.append(w_line(rng, t, kind, cold_iters(rng, kind)))
     ops.append(f"go {rng.randrange(2**32)} 1")
@@ -217,6 +226,8 @@ def classify(op, impl):
         return "w:" + w[2]
     if w[0] == "reg":
         return "reg:" + w[1]
+    if w[0] == "case":
+        return f"case:registered eth={sum(1 for x in w[2:] if x.startswith('eth:'))} ip={sum(1 for x in w[2:] if x.startswith('ip:'))}"
     if w[0] == "go":
         n = 0 if "conc=- " in impl else impl.split(" ")[1].count(",") + 1 if impl.startswith("go conc=") else -1
         return f"go:threads={n}"
@@ -396,6 +407,7 @@ def run(chk):
         "TSan detects happens-before races among accesses it instruments (libtins and harness code; uninstrumented libcrypto/libpcap internals are not seen)",
         "TSan judges only the schedules that were executed: a race needs both accesses to be executed without a happens-before edge in one of the runs (it does not need them to collide in time); state that is touched only on a path no workload executes, or only under a registration history / key pattern no scenario produces, is seen by the static-variable table alone",
         "a cold-start race is visible only in the first overlapping calls of a process: the quick tier gives each (workload kind, k) one cold process per run; thread start-up skew (16 threads released by one barrier on a shared machine) may let one thread finish a lazy initialisation before the next one arrives, in which case TSan still reports it only if the later reads are not ordered after it (they are not: the barrier precedes both)",
+        "TSan's shadow memory remembers the last four accesses to an 8-byte word: the one racing write of a lazy initialisation is forgotten after a few further accesses to the same word, so it is reported only if another thread's first call arrives within a few calls of it (observed with seeded/C18f on 4 slow-starting threads: no report) — hence the spinning barrier, the sensitive call first in every workload, and hundreds of cold processes per run instead of long warm runs",
         "wrong-value manifestations (digest mismatch without a race report) need the accesses to actually collide; they are opportunistic, the race report is the primary signal",
         "TSan suppressions: none are used; no report from libstdc++ / libcrypto internals occurs on the unchanged tree",
     ]
@@ -424,8 +436,14 @@ def replay(path):
     ops, _ = with_alone(exe_alone, strip_alone(ops), excluded)     # run-alone digests of the tree being replayed on
     if excluded:
         print("workloads whose run-alone execution faults under ASan/UBSan (outside C18's hypothesis):", excluded)
-    impl, mod, spec, faults = corr.evaluate(AREA, exe, ops, ("case",), env=TSAN_ENV)
-    bad = corr.first_problem(ops, impl, mod, spec)
+    # a race (and a wrong value caused by one) depends on the schedule: the replay is repeated until it shows
+    bad = None
+    for attempt in range(12):
+        impl, mod, spec, faults = corr.evaluate(AREA, exe, ops, ("case",), env=TSAN_ENV)
+        bad = corr.first_problem(ops, impl, mod, spec)
+        if bad:
+            print(f"(reproduced at attempt {attempt + 1} of 12)")
+            break
     for o, a, b, c in zip(ops, impl, mod, spec):
         print(o[:200]); print("  impl :", a[:400]); print("  model:", b[:400]); print("  spec :", c)
     if bad:
